@@ -40,3 +40,18 @@ func TestReplay(t *testing.T) {
 	}
 	fmt.Printf("REPLAY-OK: property=%s\n", id)
 }
+
+func fuzzProp(f *testing.F, id string) {
+	r, ok := registry[id]
+	if !ok {
+		f.Skip("property not registered: " + id)
+	}
+	r.fuzz(f)
+}
+
+func FuzzC02(f *testing.F) { fuzzProp(f, "C02") }
+func FuzzC04(f *testing.F) { fuzzProp(f, "C04") }
+func FuzzC05(f *testing.F) { fuzzProp(f, "C05") }
+func FuzzC07(f *testing.F) { fuzzProp(f, "C07") }
+func FuzzC16(f *testing.F) { fuzzProp(f, "C16") }
+func FuzzC20(f *testing.F) { fuzzProp(f, "C20") }
